@@ -1201,7 +1201,7 @@ def _array_rule(ctx):
     arr = ctx.model.cls(f"{DTm}:Array.Array")
     enc, dec = arr.methods["encode"], arr.methods["decode"]
     usint = ClassRef(ctx.model.cls(f"{DTm}:USINT"))
-    elem, bits = Obj(kind="elem", size=1), Obj(kind="bits", size=1)
+    elem, bits, elem2 = Obj(kind="elem", size=1), Obj(kind="bits", size=1), Obj(kind="elem", size=2)
 
     def hook(call, env, it):
         n = call_name(call) or ""
@@ -1240,10 +1240,12 @@ def _array_rule(ctx):
                 if not isinstance(a, int) or isinstance(a, bool) or not 0 <= a < 256:
                     raise _Raise("DataError")
                 return bytes([a])
-            got = a.read(1)
+            got = a.read(et.size)
             if not got:
                 raise _Raise("BufferEmptyError")
-            return [bool(got[0] >> i & 1) for i in range(8)] if et.kind == "bits" else got[0]
+            if len(got) < et.size:
+                raise _Raise("DataError")  # a partial element: malformed data, not the end of the array
+            return [bool(got[0] >> i & 1) for i in range(8)] if et.kind == "bits" else int.from_bytes(got, "little")
         if n == "_as_stream" and isinstance(f, ast.Name):
             v = it.ev(call.args[0], env)
             return v if isinstance(v, Stream) else Stream(v)
@@ -1285,6 +1287,9 @@ def _array_rule(ctx):
         ("USINT-prefixed, count 0 with more data behind it", cls_w(usint, elem), b"\x00\x05\x06", None, ("return", []), 1),
         ("unbounded", cls_w(None, elem), b"\x07\x08\x09", None, ("return", [7, 8, 9]), 3),
         ("unbounded, empty buffer", cls_w(None, elem), b"", None, ("return", []), 0),
+        ("unbounded, two-byte elements, whole number of elements", cls_w(None, elem2), b"\x01\x00\x02\x00", None, ("return", [1, 2]), 4),
+        ("unbounded, two-byte elements, buffer cut inside the third element", cls_w(None, elem2), b"\x01\x00\x02\x00\x03", None, ("raise", "DataError"), None),
+        ("fixed 2, two-byte elements, buffer cut inside the second", cls_w(2, elem2), b"\x01\x00\x02", None, ("raise", "DataError"), None),
         ("bit strings, fixed 2", cls_w(2, bits), pack(b16) + b"\xff", None, ("return", b16), 2),
         ("bit strings, unbounded", cls_w(None, bits), pack(b16), None, ("return", b16), 2),
     ]
